@@ -14,9 +14,12 @@ ASSUMPTIONS = [
     "newline, \\d / \\s are the Unicode classes; characters are limited to z3's range (<= U+2FFFF)",
     "spec whitespace = the characters with str.isspace() (Unicode White_Space plus the ASCII separators FS GS RS US)",
 ]
-LEVEL = "other"     # the validators are proved; the per-class parse() functions are not under contract yet
-NOT_COVERED = ["the 25 per-class parse() functions", "Serializer.unserialize envelope checks and exception wrapping",
-               "check_or_raise_extra / _validate_kwargs (iteration over dynamically typed dict keys)"]
+LEVEL = "other"     # 23 of the 25 parse() functions and all validators are proved; Hello / Welcome are bounded; unserialize is not covered
+NOT_COVERED = ["Hello.parse and Welcome.parse as proofs (role objects built with role_cls(**features), custom attributes collected by "
+               "iterating the details): a bounded enumeration on the real code stands in, labelled bounded",
+               "Serializer.unserialize: envelope checks, dispatch on the message type code, wrapping of codec exceptions",
+               "arbitrary octets through the third-party codecs (json / msgpack / cbor2 / ubjson)",
+               "role.py feature classes"]
 MSG = "autobahn.wamp.message"
 UNTRUSTED = "int|bool|str|none|real|bytes|ulist:any|udict:"
 RS = R.RS
@@ -213,8 +216,15 @@ def parse_units(reg, common):
     PAYLOAD_INL = [MSG + ":MessageWithAppPayload._init_app_payload", MSG + ":is_valid_enc_algo", MSG + ":is_valid_enc_serializer"] + \
         [MSG + ":MessageWithAppPayload." + x for x in ENC_INL]
 
-    def PAYLOAD(i):
+    def PAYLOAD(i, lenient_args=False):
         """wmsg[i] is the args / payload position, wmsg[i + 1] the kwargs position"""
+        if lenient_args:
+            # PUBLISH takes pre-serialized args (str / bytes) as well -- its constructor documents them; whether that is
+            # "wrongly typed" is not something the property settles, so only the correspondence with the input is stated
+            r = PAYLOAD(i)
+            r[1] = "result.args is None or type(result.args) == list or type(result.args) == str or type(result.args) == bytes"
+            r[3] = "implies(len(wmsg) > %d and result.payload is None, result.args is wmsg[%d])" % (i, i)
+            return r
         return ["result.payload is None or type(result.payload) == bytes",
                 "result.args is None or type(result.args) == list",
                 "result.kwargs is None or (type(result.kwargs) == dict and str_keys(result.kwargs))",
@@ -281,6 +291,29 @@ def parse_units(reg, common):
             "('topic' in wmsg[3]) == (result.topic is not None)"],
          extra_inline=["subscription", "publication", "publisher", "publisher_authid", "publisher_authrole", "topic", "retained",
                        "transaction_hash", "x_acknowledged_delivery"], loops=FF_LOOP, more_inline=PAYLOAD_INL)
+    # PUBLISH: six white / black lists (session ids, authids, authroles), each walked by parse() and again by the constructor
+    A["SL"] = SCALAR + "|ulist:@V|@D"
+    LISTS = {"exclude": "int", "eligible": "int", "exclude_authid": "str", "exclude_authrole": "str", "eligible_authid": "str",
+             "eligible_authrole": "str"}
+    pub_loops = dict(FF_LOOP)
+    ctor_loops = {"iter:forward_for": {"index": "_j", "invariant": [], "modifies": [], "pure_calls": True}}
+    pub_ens = []
+    for f, ty in LISTS.items():
+        elem_ok = "type(%%s[q]) == %s" % ty + (" and id_ok(%s[q])" if ty == "int" else "")
+        inv = elem_ok.replace("%s", "option_" + f)
+        pub_loops["iter:option_" + f] = {"index": "_j", "invariant": ["forall(q, 0, _j, %s)" % inv], "modifies": [], "pure_calls": True}
+        ctor_loops["iter:" + f] = {"index": "_j", "invariant": [], "modifies": [], "pure_calls": True}
+        pub_ens += ["implies(result.%s is not None, type(result.%s) == list and forall(q, 0, len(result.%s), %s))"
+                    % (f, f, f, elem_ok.replace("%s", "result." + f)),
+                    "implies('%s' in wmsg[2], result.%s is wmsg[2]['%s'])" % (f, f, f),
+                    "implies('%s' not in wmsg[2], result.%s is None)" % (f, f)]
+    unit("Publish", dict({k: "@SL" for k in LISTS}, acknowledge="@V", exclude_me="@V", retain="@V", transaction_hash="@V",
+                         forward_for="@FF", **ENC_OPTS),
+         [ID("request", 1), URI("topic", "wmsg[3]")] + PAYLOAD(4, lenient_args=True) + OPT("acknowledge", 2, "bool")
+         + OPT("exclude_me", 2, "bool") + OPT("retain", 2, "bool") + OPT("transaction_hash", 2, "str") + pub_ens + FF(2),
+         extra_inline=["request", "topic", "acknowledge", "exclude_me", "retain", "transaction_hash"] + list(LISTS),
+         loops=pub_loops, more_inline=PAYLOAD_INL)
+    reg.inline_loops[MSG + ":Publish.__init__"] = ctor_loops
     for cls, f in (("Unsubscribed", "subscription"), ("Unregistered", "registration")):
         unit(cls, {f: "@V", "reason": "@V"},
              [ID("request", 1),
@@ -289,8 +322,109 @@ def parse_units(reg, common):
               "implies(result.reason is not None, len(wmsg) == 3 and " + URI("reason", "wmsg[2]['reason']") + ")"],
              extra_inline=["request", f, "reason"])
 
+_BOUNDED_HARNESS = r'''
+import json, itertools
+import txaio; txaio.use_asyncio()
+from autobahn.wamp import message as M
+from autobahn.wamp.exception import ProtocolError, InvalidUriError
+VALS = [0, 1, -1, 2 ** 53, 2 ** 53 + 1, True, False, None, 1.5, "a.b", "", "a b", "x_y", b"x", [], [1], ["a"], {}, {"x": 1}, {1: 2},
+        [{}], {"features": {}}, {"features": {"x": 1}}, {"features": 1}, {"caller": {}}, {"broker": {}}, {"bogus": {}}]
+BASES = {
+    "Hello": [[1, "realm1", {"roles": {"caller": {}}}],
+              [1, "realm1", {"roles": {"subscriber": {"features": {"publisher_identification": True}}, "callee": {}},
+                             "authmethods": ["wampcra"], "authid": "a", "authrole": "r", "authextra": {}, "resumable": True,
+                             "resume-session": 1, "resume-token": "t"}],
+              [1, None, {"roles": {"publisher": {}}}]],
+    "Welcome": [[2, 1, {"roles": {"broker": {}}}],
+                [2, 1, {"roles": {"dealer": {"features": {"caller_identification": True}}, "broker": {}}, "realm": "realm1",
+                        "authid": "a", "authrole": "r", "authmethod": "m", "authprovider": "p", "authextra": {}, "resumed": True,
+                        "resumable": True, "resume_token": "t", "x_custom": 1}]],
+}
+KEYS = {"Hello": ["roles", "authmethods", "authid", "authrole", "authextra", "resumable", "resume-session", "resume-token"],
+        "Welcome": ["roles", "realm", "authid", "authrole", "authmethod", "authprovider", "authextra", "resumed", "resumable",
+                    "resume_token", "x_custom", "x_"]}
+TYPES = {"realm": (str,), "authid": (str,), "authrole": (str,), "authmethod": (str,), "authprovider": (str,), "authextra": (dict,),
+         "resumed": (bool,), "resumable": (bool,), "resume_token": (str,), "resume_session": (int,), "authmethods": (list,)}
+
+def variants(cls, base):
+    yield list(base)
+    for n in range(1, len(base) + 2):
+        yield (list(base) + [0, 0])[:n]
+    for i in range(1, len(base)):
+        for v in VALS:
+            w = list(base); w[i] = v
+            yield w
+    di = len(base) - 1
+    for k in KEYS[cls]:
+        for v in VALS:
+            w = list(base); w[di] = dict(base[di]); w[di][k] = v
+            yield w
+    for role in list(base[di]["roles"]) + ["bogus"]:
+        for v in VALS:
+            w = list(base); w[di] = dict(base[di]); w[di]["roles"] = dict(base[di]["roles"]); w[di]["roles"][role] = v
+            yield w
+            w = list(base); w[di] = dict(base[di]); w[di]["roles"] = dict(base[di]["roles"]); w[di]["roles"][role] = {"features": {"caller_identification": v}}
+            yield w
+
+bad, n = [], 0
+for cls_name in ("Hello", "Welcome"):
+    cls = getattr(M, cls_name)
+    for base in BASES[cls_name]:
+        for w in variants(cls_name, base):
+            n += 1
+            try:
+                r = cls.parse(w)
+            except (ProtocolError, InvalidUriError):
+                continue
+            except Exception as e:
+                bad.append({"cls": cls_name, "wmsg": repr(w), "problem": "parse() raised %s (%s)" % (type(e).__name__, e)})
+                continue
+            for f, ts in TYPES.items():
+                if hasattr(r, f):
+                    v = getattr(r, f)
+                    if v is not None and type(v) not in ts:
+                        bad.append({"cls": cls_name, "wmsg": repr(w), "problem": "accepted with %s = %r" % (f, v)})
+            try:
+                r.marshal()
+            except Exception as e:
+                bad.append({"cls": cls_name, "wmsg": repr(w), "problem": "accepted but marshal() raised %r" % (e,)})
+seen, uniq = set(), []
+for b in bad:
+    k = (b["cls"], b["problem"].split("(")[0][:60])
+    if k not in seen:
+        seen.add(k); uniq.append(b)
+print(json.dumps({"cases": n, "bad": uniq[:12], "n_bad": len(bad)}))
+'''
+
+
 def extra_checks(tier, seed):
-    return []
+    """Hello.parse / Welcome.parse build role objects from untrusted feature dicts (`role_cls(**features)`) and collect custom
+    attributes by iterating the details: outside what the verifier models.  A *bounded* stand-in on the real code: every
+    single-position / single-option / single-role replacement, by 27 values covering every JSON / CBOR type and the id
+    boundaries, of 5 base messages.  Labelled bounded, never counted as proved."""
+    import time
+    from pyvc import replaylib as Rp
+    t0 = time.time()
+    out = Rp.run_py(_BOUNDED_HARNESS, timeout=300)
+    ok = isinstance(out, dict) and out.get("cases", 0) > 1000 and out.get("bad") == []
+    crashed = not isinstance(out, dict) or "cases" not in out
+    res = []
+    if crashed:
+        return [{"name": "C08/bounded/hello-welcome-parse", "kind": "bounded", "status": "unknown", "bounded": True,
+                 "backend": "enumeration on the real code", "time": round(time.time() - t0, 2), "reason": "harness error: %s" % str(out)[:300],
+                 "bound": "single replacements", "cases": 0}]
+    by_cls = {"Hello": [], "Welcome": []}
+    for b in out.get("bad", []):
+        by_cls[b["cls"]].append(b)
+    for cls, bads in by_cls.items():
+        res.append({"name": "C08/bounded/%s.parse" % cls, "kind": "bounded", "status": "refuted" if bads else "proved",
+                    "bounded": True, "backend": "enumeration on the real code", "time": round(time.time() - t0, 2),
+                    "bound": "every single-position / single-option / single-role replacement by 27 values of every JSON / CBOR "
+                             "type, of the base messages (pairs of replacements not covered)",
+                    "cases": out.get("cases"), "info": {"detail": str(bads)[:600]},
+                    "replay": {"reproduced": bool(bads), "cases": bads[:4],
+                               "detail": "inputs found by the bounded enumeration, run on the real parse()"}})
+    return res
 
 
 # ------------------------------------------------------------------------------------------ replay on the real code
@@ -425,11 +559,24 @@ def _replay_parse(o, unit):
     inp = o.get("inputs") or {}
     clause = None
     if o.get("kind") == "ensures" or "/ensures" in (o.get("name") or ""):
-        src = (o.get("info") or {}).get("clause")
+        srcs = [(o.get("info") or {}).get("clause")]
+    elif o.get("kind") == "raises" or "/raises" in (o.get("name") or ""):
+        srcs = []
+    else:
+        # an internal obligation (loop invariant, ...) failed: what is observable is whether the message that comes back
+        # satisfies the unit's postconditions -- all of them are evaluated natively
+        from pyvc.contracts import Registry
+        reg = Registry()
+        build(reg)
+        srcs = [e for c in reg.units if c.name == unit for e in c.ensures]
+    parts = []
+    for src in srcs:
         try:
-            clause = Rp.native_clause(src) if src else None
+            if src:
+                parts.append("(" + Rp.native_clause(src) + ")")
         except Exception:
-            clause = None
+            pass
+    clause = " and ".join(parts) or None
     cands = [inp.get("wmsg")] + [c.get("wmsg") for c in (o.get("candidate_inputs") or []) if isinstance(c, dict)]
     last = None
     for w in cands:
